@@ -155,3 +155,204 @@ Proof.
   intros Hx. unfold eval_ssa, ssa_matrix. rewrite map_map. apply map_ext. intros o.
   apply (ssa_linear_gen prog x Hx _ _ (linked_empty x)).
 Qed.
+
+(* ================================================================ C. generated_function is 16 * (circulant matrix) *)
+Definition crow (r : nat) : list Z := circ_row MDS_MATRIX_FIRST_COLUMN r.
+Definition rsum (r : list Z) : Z := fold_right Z.add 0 r.
+
+(* the coefficient matrix of the REGENERATED program, computed inside Coq, is 16 * M with M[r][j] = col[(r - j) mod 16] *)
+Theorem gf_matrix : ssa_matrix GF_PROG GF_OUT = map (fun r => map (Z.mul 16) (crow r)) (seq 0 16).
+Proof. vm_compute. reflexivity. Qed.
+Theorem gf_wf : ssa_wf 16 GF_PROG GF_OUT = true.
+Proof. vm_compute. reflexivity. Qed.
+
+Lemma crow_facts r : (r < 16)%nat -> Forall (fun c => 0 <= c) (crow r) /\ rsum (crow r) = 524757 /\ length (crow r) = 16%nat.
+Proof.
+  intros Hr.
+  assert (H : forallb (fun r => forallb (fun c => 0 <=? c) (crow r) && (rsum (crow r) =? 524757) && Nat.eqb (length (crow r)) 16)
+                (seq 0 16) = true) by (vm_compute; reflexivity).
+  rewrite forallb_forall in H. specialize (H r). rewrite in_seq in H. specialize (H ltac:(lia)).
+  apply andb_true_iff in H. destruct H as [H H3]. apply andb_true_iff in H. destruct H as [H1 H2].
+  split; [|split].
+  - apply Forall_forall. intros c Hc. rewrite forallb_forall in H1. specialize (H1 c Hc). lia.
+  - lia.
+  - apply Nat.eqb_eq. exact H3.
+Qed.
+
+Lemma dot_scale c r x : dot (map (Z.mul c) r) x = c * dot r x.
+Proof.
+  revert x. induction r as [|a r IH]; intros x; [cbn [map dot]; lia|].
+  destruct x as [|b x]; [cbn [map dot]; lia|]. cbn [map dot]. rewrite IH. ring.
+Qed.
+
+Lemma rsum_cons a r : rsum (a :: r) = a + rsum r.
+Proof. reflexivity. Qed.
+Lemma rsum_nonneg r : Forall (fun c => 0 <= c) r -> 0 <= rsum r.
+Proof. induction 1 as [|a r Ha Hr IH]; [cbn; lia|]. rewrite rsum_cons. lia. Qed.
+
+Lemma dot_bound r x B : 0 <= B -> Forall (fun c => 0 <= c) r -> Forall (fun v => 0 <= v <= B) x ->
+  0 <= dot r x <= rsum r * B.
+Proof.
+  intros HB Hr. revert x. induction Hr as [|a r Ha Hr IH]; intros x Hx.
+  - cbn. lia.
+  - pose proof (rsum_nonneg r Hr) as Hs. rewrite rsum_cons.
+    destruct x as [|b x]; [cbn [dot]; nia|].
+    inversion Hx as [|? ? Hb Hx']; subst. specialize (IH x Hx').
+    cbn [dot]. nia.
+Qed.
+
+(* for inputs below 2^32 nothing wraps: generated_function x = 16 * (M x), exactly, as integers *)
+Theorem gf_spec x : Forall (fun v => 0 <= v < 2 ^ 32) x ->
+  generated_function x = map (fun r => 16 * dot (crow r) x) (seq 0 16).
+Proof.
+  intros Hx. unfold generated_function. rewrite ssa_linear.
+  2:{ eapply Forall_impl; [|exact Hx]. cbv beta. unfold M64. intros v Hv. change (2 ^ 32) with 4294967296 in Hv. lia. }
+  rewrite gf_matrix, map_map. apply map_ext_in. intros r Hr. apply in_seq in Hr.
+  rewrite dot_scale. apply Z.mod_small.
+  destruct (crow_facts r ltac:(lia)) as [Hc [Hs _]].
+  assert (Hb : 0 <= dot (crow r) x <= rsum (crow r) * 4294967295).
+  { apply dot_bound; [lia|exact Hc|]. eapply Forall_impl; [|exact Hx]. cbv beta. intros v Hv.
+    change (2 ^ 32) with 4294967296 in Hv. lia. }
+  rewrite Hs in Hb. unfold M64. lia.
+Qed.
+
+(* ================================================================ D. the lane recombination of mds_generated *)
+Ltac word_unfold2 :=
+  word_unfold;
+  change (2 ^ 4) with 16 in *; change (2 ^ 28) with 268435456 in *; change (2 ^ 52) with 4503599627370496 in *.
+
+Theorem mds_lane_spec a b : 0 <= a < 2 ^ 52 -> 0 <= b < 2 ^ 52 ->
+  0 <= mds_lane (16 * a) (16 * b) < 2 ^ 64 /\
+  (mds_lane (16 * a) (16 * b)) mod P = (a + 2 ^ 32 * b) mod P /\
+  mds_lane_ok (16 * a) (16 * b) = true.
+Proof.
+  intros Ha Hb. unfold mds_lane, mds_lane_ok, P. word_unfold2.
+  assert (E1 : 16 * a / 16 = a) by lia. rewrite E1.
+  assert (E2 : (16 * b * 268435456) mod 340282366920938463463374607431768211456 = 4294967296 * b) by lia. rewrite E2.
+  assert (E3 : (a + 4294967296 * b) mod 340282366920938463463374607431768211456 = a + 4294967296 * b) by lia. rewrite E3.
+  set (s := a + 4294967296 * b).
+  assert (Hs : 0 <= s < 38685626227668133590597632) by (subst s; lia).
+  clearbody s. clear E1 E2 E3.
+  set (shi := (s / 18446744073709551616) mod 18446744073709551616).
+  set (slo := s mod 18446744073709551616).
+  assert (Hhi : 0 <= shi < 2097152 /\ s = shi * 18446744073709551616 + slo /\ 0 <= slo < 18446744073709551616) by (subst shi slo; lia).
+  clearbody shi slo.
+  assert (E4 : (shi * 4294967295) mod 18446744073709551616 = shi * 4294967295) by lia. rewrite E4.
+  destruct (18446744073709551616 <=? slo + shi * 4294967295) eqn:E; cbn [fst snd].
+  - repeat split; try lia.
+  - repeat split; try lia.
+Qed.
+
+(* ================================================================ E. mds_generated on arbitrary u64 words *)
+Definition word_ok (w : Z) : Prop := 0 <= w < 2 ^ 64.
+
+Lemma split_word w : word_ok w ->
+  0 <= mds_split_lo w < 2 ^ 32 /\ 0 <= mds_split_hi w < 2 ^ 32 /\
+  w = mds_split_lo w + 2 ^ 32 * mds_split_hi w /\ mds_split_hi_ok w = true /\ mds_split_lo_ok w = true.
+Proof.
+  unfold word_ok, mds_split_lo, mds_split_hi, mds_split_hi_ok, mds_split_lo_ok. intros Hw.
+  change 4294967295 with (Z.ones 32). rewrite Z.land_ones by lia. word_unfold. lia.
+Qed.
+
+Lemma dot_split r st : Forall word_ok st ->
+  dot r st = dot r (map mds_split_lo st) + 2 ^ 32 * dot r (map mds_split_hi st).
+Proof.
+  intros Hst. revert r. induction Hst as [|w st Hw Hst IH]; intros r.
+  - destruct r; cbn [map dot]; lia.
+  - destruct r as [|a r]; [cbn [map dot]; lia|]. cbn [map dot]. rewrite (IH r).
+    destruct (split_word w Hw) as [_ [_ [E _]]]. rewrite E at 1. ring.
+Qed.
+
+Lemma combine_map_same {A B C} (f : A -> B) (g : A -> C) l :
+  combine (map f l) (map g l) = map (fun x => (f x, g x)) l.
+Proof. induction l as [|x l IH]; [reflexivity|]. cbn [map combine]. rewrite IH. reflexivity. Qed.
+
+Definition mds_out (st : list Z) (r : nat) : Z :=
+  mds_lane (16 * dot (crow r) (map mds_split_lo st)) (16 * dot (crow r) (map mds_split_hi st)).
+
+Lemma mds_generated_unfold st : Forall word_ok st -> mds_generated st = map (mds_out st) (seq 0 16).
+Proof.
+  intros Hst. unfold mds_generated.
+  assert (Hlo : Forall (fun v => 0 <= v < 2 ^ 32) (map mds_split_lo st)).
+  { apply Forall_map. eapply Forall_impl; [|exact Hst]. intros w Hw. apply (split_word w Hw). }
+  assert (Hhi : Forall (fun v => 0 <= v < 2 ^ 32) (map mds_split_hi st)).
+  { apply Forall_map. eapply Forall_impl; [|exact Hst]. intros w Hw. apply (split_word w Hw). }
+  rewrite (gf_spec _ Hlo), (gf_spec _ Hhi), combine_map_same, map_map. reflexivity.
+Qed.
+
+Lemma half_dot_bound r x : (r < 16)%nat -> Forall (fun v => 0 <= v < 2 ^ 32) x -> 0 <= dot (crow r) x < 2 ^ 52.
+Proof.
+  intros Hr Hx. destruct (crow_facts r Hr) as [Hc [Hs _]].
+  assert (Hb : 0 <= dot (crow r) x <= rsum (crow r) * 4294967295).
+  { apply dot_bound; [lia|exact Hc|]. eapply Forall_impl; [|exact Hx]. cbv beta. intros v Hv.
+    change (2 ^ 32) with 4294967296 in Hv. lia. }
+  rewrite Hs in Hb. change (2 ^ 52) with 4503599627370496. lia.
+Qed.
+
+(* recombination: every lane is a u64 congruent to (row r of M) . (raw words) modulo p - possibly not below p -
+   and no unchecked operator of the lane body overflows *)
+Theorem mds_out_spec st r : (r < 16)%nat -> Forall word_ok st ->
+  0 <= mds_out st r < 2 ^ 64 /\ (mds_out st r) mod P = (dot (crow r) st) mod P /\
+  mds_lane_ok (16 * dot (crow r) (map mds_split_lo st)) (16 * dot (crow r) (map mds_split_hi st)) = true.
+Proof.
+  intros Hr Hst. unfold mds_out.
+  assert (Hlo : Forall (fun v => 0 <= v < 2 ^ 32) (map mds_split_lo st)).
+  { apply Forall_map. eapply Forall_impl; [|exact Hst]. intros w Hw. apply (split_word w Hw). }
+  assert (Hhi : Forall (fun v => 0 <= v < 2 ^ 32) (map mds_split_hi st)).
+  { apply Forall_map. eapply Forall_impl; [|exact Hst]. intros w Hw. apply (split_word w Hw). }
+  destruct (mds_lane_spec _ _ (half_dot_bound r _ Hr Hlo) (half_dot_bound r _ Hr Hhi)) as [H1 [H2 H3]].
+  split; [exact H1|]. split; [|exact H3]. rewrite H2. rewrite (dot_split (crow r) st Hst). reflexivity.
+Qed.
+
+(* ================================================================ F. field-level lemmas *)
+Lemma P_lit : P = 18446744069414584321. Proof. reflexivity. Qed.
+
+Lemma dot_val r x : (dot r x * Rinv) mod P = (dot r (map val x)) mod P.
+Proof.
+  revert x. induction r as [|a r IH]; intros x; [reflexivity|].
+  destruct x as [|b x]; [reflexivity|]. cbn [map dot].
+  rewrite Z.mul_add_distr_r, Z.add_mod by (rewrite P_lit; lia). rewrite IH.
+  unfold val at 2. rewrite (Z.add_mod (a * _)) by (rewrite P_lit; lia).
+  rewrite Z.mul_mod_idemp_r by (rewrite P_lit; lia).
+  f_equal. f_equal. f_equal. ring.
+Qed.
+
+Lemma val_congr a b : a mod P = b mod P -> val a = val b.
+Proof.
+  intros H. unfold val. rewrite <- (Z.mul_mod_idemp_l a), <- (Z.mul_mod_idemp_l b) by (rewrite P_lit; lia).
+  rewrite H. reflexivity.
+Qed.
+
+(* bfe_add with a NON-canonical left operand (any u64) and a right operand at least 2^32 below p *)
+Theorem add_noncanon a c : 0 <= a < 2 ^ 64 -> 0 <= c <= P - 2 ^ 32 ->
+  bfe_add a c = (a + c) mod P /\ bfe_add_ok a c = true.
+Proof.
+  intros Ha Hc. unfold bfe_add, bfe_add_ok, P in *. word_unfold.
+  destruct (a <? (18446744069414584321 - c) mod 18446744073709551616) eqn:E; cbn [fst snd]; split; lia.
+Qed.
+
+Lemma add_noncanon_val a c : 0 <= a < 2 ^ 64 -> 0 <= c <= P - 2 ^ 32 ->
+  canon (bfe_add a c) /\ val (bfe_add a c) = (val a + val c) mod P.
+Proof.
+  intros Ha Hc. destruct (add_noncanon a c Ha Hc) as [E _]. rewrite E. split.
+  - apply Z.mod_pos_bound. exact P_pos.
+  - unfold val. rewrite Z.mul_mod_idemp_l by (rewrite P_lit; lia).
+    rewrite <- Z.add_mod by (rewrite P_lit; lia). f_equal. ring.
+Qed.
+
+Lemma mulm a b : (a mod P * b) mod P = (a * b) mod P.
+Proof. apply Z.mul_mod_idemp_l. rewrite P_lit. lia. Qed.
+Lemma mulm_r a b : (a * (b mod P)) mod P = (a * b) mod P.
+Proof. apply Z.mul_mod_idemp_r. rewrite P_lit. lia. Qed.
+
+Theorem pow7_spec x : canon x -> canon (pow7 x) /\ val (pow7 x) = (val x) ^ 7 mod P.
+Proof.
+  intros Hx. unfold pow7.
+  destruct (mul_spec x x Hx Hx) as [Csq Vsq].
+  destruct (mul_spec _ _ Csq Csq) as [Cqu Vqu].
+  destruct (mul_spec _ _ Csq Cqu) as [C6 V6].
+  destruct (mul_spec _ _ Hx C6) as [C7 V7].
+  split; [exact C7|]. rewrite V7, V6, Vqu, Vsq.
+  set (v := val x).
+  repeat (rewrite mulm || rewrite mulm_r). rewrite !Z.mul_assoc. repeat (rewrite mulm || rewrite mulm_r). f_equal. ring.
+Qed.
